@@ -16,6 +16,12 @@
     due all come from that model. The effective style of each character is read
     back by Text.render(console) -> Segments -> RefStyle.
 
+(b+) extra strata of (b): the same colour closed and reopened while another tag
+    stays open (3 colours, exactly 6 events; 2 colours, exactly 7), and closing-tag
+    spellings with a parameter part ([/link=U], [/link=W], [/red=1], [/=]; <=5).
+(t) threads: two real threads render markup with a never-parsed compound tag on
+    cold Style.parse/normalize caches (vf/cold.py zygote), all schedules with <=1
+    preemption at line granularity in rich/style.py + rich/markup.py (vf/sched.py).
 (c) resized text: every event sequence up to the bound over text chunks whose
     rendered length differs from their source length (valid emoji code of one and
     of two code points, an emoji-like code that is not in the table, a control
@@ -29,7 +35,8 @@ Measured (machine shared with ~100 other busy processes, so CPU seconds are the
 reliable number; wall on 16 free cores is about CPU/16):
   quick     (a) len<=5: 271 453 strings, (b) len<=5 over 16 events: 1 118 481 sequences;
             (c) len<=5 over 10 events: 111 111 sequences x emoji on/off x 3 entry points;
-            3 662 555 evaluations, 311 outcome signatures (148 non-trivial), ~275 CPU-s (~20-25 s wall on 16 free cores)
+            (b+) 653 255 sequences; (t) 892 schedules x 4 judged renders;
+            4 319 314 evaluations, 340 outcome signatures (175 non-trivial), ~300 CPU-s (~25-30 s wall on 16 free cores)
   thorough  (a) len<=6 over 12 symbols + len 7 over 11 symbols ('b' dropped: same regex class as 'a';
             embeddings with emoji=False only): 22 744 608 strings,
             (b) len<=6 over 16 events + len 7 over a 9-event and a 10-event sub-alphabet: 32 678 666 sequences;
@@ -39,6 +46,7 @@ reliable number; wall on 16 free cores is about CPU/16):
 import io
 import itertools
 import os
+import sys
 import traceback
 
 from ..par import Result, deadline_passed
@@ -46,7 +54,7 @@ from ..refstyle import RefStyle
 
 ID = "C04"
 LEVEL = "exploration"
-ENGINE = "E1"
+ENGINE = "E1+E3"
 CAP_S = {"quick": 240, "thorough": 1500}
 TECHNIQUE = ("bounded-exhaustive enumeration of strings and tag-event sequences on the real "
              "render()/escape(), judged by a generator-tracked open-tag stack and hand-written "
@@ -130,6 +138,7 @@ RED = _Keyed(color=("std", 1))
 BLUE = _Keyed(color=("std", 4))
 LINK = _Keyed(link="U")
 LINKV = _Keyed(link="V")
+GREEN = _Keyed(color=("std", 2))
 
 # ------------------------------------------------------------------ (a) escape
 SIGMA = ["a", "[", "]", "\\", "/", "=", "#", "b", "1", " ", "\n", ":"]
@@ -271,6 +280,15 @@ EVENTS = {
     "-notbold": ("close", "[/not bold]", "not bold"),
     "-link": ("close", "[/link]", "link"),
     "-": ("pop", "[/]", None),
+    # a third colour: precedence conflicts between regions of the same style reopened under another open tag
+    "+green": ("open", "[green]", ("green", GREEN)),
+    "-green": ("close", "[/green]", "green"),
+    # closing-tag spellings with a parameter part. Reference rule (written down here, not taken from _parse):
+    # the name of a tag is the text before the first '=', stripped; a closing tag whose name is empty is [/].
+    "-link=U": ("close", "[/link=U]", "link"),
+    "-link=W": ("close", "[/link=W]", "link"),    # the parameter of a closing tag plays no role
+    "-red=1": ("close", "[/red=1]", "red"),
+    "-=": ("pop", "[/=]", None),
     # part (c): text chunks whose RENDERED length differs from their source length (payload = source text)
     ":x:": ("text", ":x:", ":x:"),           # valid emoji code, one code point
     ":chad:": ("text", ":chad:", ":chad:"),  # valid emoji code, two code points (flag)
@@ -283,9 +301,22 @@ ALPHA_FULL = ["x", "+bold", "-", "+red", "-bold", "-red", "+b", "+blue", "-b", "
               "y", "+notbold", "-notbold", "+link", "-link", "+linkV"]
 ALPHA_7A = ["x", "+bold", "-", "+red", "-bold", "-red", "+b", "+blue", "-blue"]
 ALPHA_7B = ["x", "y", "-", "+notbold", "+bold", "+link", "-notbold", "-b", "-link", "+linkV"]
+ALPHA_D3 = ["x", "+red", "-", "+blue", "-red", "-blue", "+green", "-green"]
+ALPHA_D2 = ["x", "+red", "-", "+blue", "-red", "-blue"]
+ALPHA_E = ["x", "+link", "-", "-link", "-link=U", "+linkV", "-link=W", "+red", "-=", "-red=1"]
 ALPHA_C = ["x", ":x:", "+bold", "-", "^H", "-bold", "+red", ":nope:", "-red", "wide"]
 ALPHA_C_THOROUGH = ALPHA_C + [":chad:", "^G"]
-ALPHABETS = {"full": ALPHA_FULL, "7a": ALPHA_7A, "7b": ALPHA_7B, "c": ALPHA_C, "c+": ALPHA_C_THOROUGH}
+ALPHABETS = {"full": ALPHA_FULL, "7a": ALPHA_7A, "7b": ALPHA_7B, "c": ALPHA_C, "c+": ALPHA_C_THOROUGH,
+             "d3": ALPHA_D3, "d2": ALPHA_D2, "e": ALPHA_E}
+
+
+def _extra_strata(tier):
+    """(alphabet, length) strata of part (b) beyond the 16-event alphabet: colours reopened (d2/d3), closing spellings (e)"""
+    q = tier == "quick"
+    out = [("d3", L) for L in range(6, (6 if q else 7) + 1)]        # shorter ones are inside 'full'
+    out += [("d2", L) for L in range(7, (7 if q else 8) + 1)]
+    out += [("e", L) for L in range(0, (5 if q else 6) + 1)]
+    return out
 ENTRIES = ("render", "from_markup", "render_str")
 
 _TABLES = []
@@ -490,6 +521,10 @@ def _b_shards(tier):
         for alpha in ("7a", "7b"):
             for prefix in itertools.product(range(len(ALPHABETS[alpha])), repeat=2):
                 shards.append({"part": "b", "alpha": alpha, "L": 7, "prefix": list(prefix)})
+    for alpha, L in _extra_strata(tier):
+        k = 0 if L <= 3 else (1 if L == 4 else 2)
+        for prefix in itertools.product(range(len(ALPHABETS[alpha])), repeat=k):
+            shards.append({"part": "b", "alpha": alpha, "L": L, "prefix": list(prefix)})
     return shards
 
 
@@ -527,11 +562,167 @@ def _part_b(sh, res):
     res.count("%s_done_%s_len%d" % (sh["part"], sh["alpha"], sh["L"]), n)
 
 
+# ------------------------------------------------------------------ (t) two threads, cold style caches (E3)
+# Two real threads render markup whose tag has never been parsed in this interpreter: every execution runs in
+# a fork of a zygote that imported rich and installed vf/sched.py but never rendered markup (vf/cold.py), so
+# Style.parse / Style.normalize and whatever the shared Style object memoises are cold and both threads can be
+# "the first one". Scheduling points: every executed line of rich/style.py and rich/markup.py; all schedules
+# with <= 1 preemption. Oracle: each thread's own result is what the sequential reference says (plain text,
+# per-character style, no MarkupError), and so is a later single-threaded render of the same markup.
+T_STYLE = _Keyed({"bold": True}, ("std", 1), ("std", 4), "U")      # b red on blue link U -- written by hand
+T_OPEN = "[b red on blue link U]"
+T_CLOSE = "[/b red on blue link U]"
+T_HARNESS = {
+    # id: (markup of thread A, markup of thread B); expected cells for all of them: x styled, y plain
+    "same-tag": (T_OPEN + "x" + T_CLOSE + "y", T_OPEN + "x" + T_CLOSE + "y"),
+    "explicit-vs-implicit": (T_OPEN + "x" + T_CLOSE + "y", T_OPEN + "x[/]y"),
+}
+T_EXPECT = [("x", T_STYLE), ("y", NULL)]
+T_ORDER = ("same-tag", "explicit-vs-implicit")
+T_SHARDS = 4
+T_MAX_EXECS = 6000
+T_STOP_AFTER_VIOLATIONS = 8
+
+
+def _t_setup():
+    """in the zygote: rich imported, console built, scheduler installed, LINE events on rich.style and rich.markup;
+    no markup is rendered and no style definition is parsed here"""
+    import rich.markup
+    import rich.style
+    from .. import sched
+    _console()
+    sched.install()
+    for mod in (rich.style, rich.markup):
+        for co in sched._code_objects(mod):
+            sys.monitoring.set_local_events(sched.TOOL, co, sys.monitoring.events.LINE)
+    sched.SKIP_CODES = frozenset()
+
+
+def _t_render(markup):
+    """-> ("ok", Text) | ("MarkupError", message) | ("crash", key, repr)"""
+    from rich.markup import render
+    from rich.errors import MarkupError
+    try:
+        return ("ok", render(markup))
+    except MarkupError as e:
+        return ("MarkupError", str(e))
+    except Exception as e:  # noqa
+        return ("crash", _crash_key(e), repr(e))
+
+
+def _t_judge(markup, out):
+    """-> (clause, detail) or None; reads the Text back single-threaded"""
+    if out[0] == "MarkupError":
+        return ("markuperror-spurious", "render(%r) raised MarkupError(%s)" % (markup, out[1]))
+    if out[0] == "crash":
+        return ("exception/" + out[1].split("/", 1)[1], "render(%r) raised %s" % (markup, out[2]))
+    text = out[1]
+    try:
+        cells = _cells(text)
+    except Exception as e:  # noqa
+        return ("exception/" + _crash_key(e).split("/", 1)[1], "reading back render(%r) (spans %r) raised %r" % (markup, text.spans, e))
+    if text.plain != "xy" or "".join(c for c, _ in cells) != "xy":
+        return ("plain", "render(%r).plain == %r, want 'xy'" % (markup, text.plain))
+    for (gc, gs), (wc, ws) in zip(cells, T_EXPECT):
+        if gs != ws:
+            return ("style-region", "render(%r): %r carries %r, want %r (spans %r)" % (markup, gc, gs, ws, text.spans))
+    return None
+
+
+def _t_make(hid):
+    ma, mb = T_HARNESS[hid]
+
+    def make(s):
+        out = {}
+
+        def runner(tid, markup):
+            def run():
+                out[tid] = _t_render(markup)
+            return run
+
+        def observe():
+            return {"got": out, "again": {"A": _t_render(ma), "B": _t_render(mb)}}
+        return {"A": runner("A", ma), "B": runner("B", mb)}, observe
+    return make
+
+
+def _t_child(hid, prefix):
+    from .. import sched, cold
+    s, obs = sched.run_once(_t_make(hid), prefix, "line", 0)
+    vio = []
+    if s.problem:
+        vio.append(("threads/%s" % s.problem.split(":")[0], s.problem))
+    for tid, e in s.errors:
+        vio.append(("threads/exception/%s" % type(e).__name__, "thread %s raised %r" % (tid, e)))
+    for tid, markup in zip("AB", T_HARNESS[hid]):
+        got = obs["got"].get(tid)
+        if got is None:
+            if not s.problem:
+                vio.append(("threads/no-result", "thread %s did not finish" % tid))
+        else:
+            err = _t_judge(markup, got)
+            if err:
+                vio.append(("threads/" + err[0], "thread %s: %s" % (tid, err[1])))
+        err = _t_judge(markup, obs["again"][tid])
+        if err:
+            vio.append(("threads/memoised/" + err[0], "rendered again by one thread after both finished: %s" % err[1]))
+    dev = s.deviations_before(len(s.choices))
+    return cold.record_of(s, sig=("t", hid, min(dev, 3), bool(vio)), vio=vio)
+
+
+def _part_t(sh, tier, res):
+    from .. import cold
+    hid = sh["h"]
+    zy = cold.Zygote("vf.checks.c04", "_t_setup")
+    bad = [0]
+
+    def on_exec(rec):
+        res.evaluations += 4
+        res.sig(rec["sig"], nontrivial=rec["sig"][2] > 0)
+        if rec["vio"]:
+            bad[0] += 1
+            ch = list(rec["choices"])
+            while ch and ch[-1] == 0:
+                ch.pop()
+            for key, detail in rec["vio"]:
+                res.violate(key, {"part": "t", "h": hid, "choices": ch}, detail)
+        return bad[0] < T_STOP_AFTER_VIOLATIONS
+    try:
+        st = cold.explore_cold(lambda prefix: zy.call("_t_child", hid, prefix), sh["bound"], on_exec,
+                               stop=deadline_passed, max_execs=T_MAX_EXECS, shard=(sh["i"], sh["n"]))
+    finally:
+        zy.close()
+    res.count("schedules", st["executions"])
+    res.counters["max_choice_points_per_schedule"] = max(res.counters.get("max_choice_points_per_schedule", 0),
+                                                         st["max_choice_points"])
+    if not st["complete"] and not bad[0]:
+        res.capped = True
+    if sh["i"] == 0:
+        res.count("threads_harness:%s:b%d" % (hid, sh["bound"]))
+        res.sample({"part": "t", "harness": hid, "A": T_HARNESS[hid][0], "B": T_HARNESS[hid][1], "bound": sh["bound"]}, limit=1)
+
+
+def _t_shards(tier):
+    return [{"part": "t", "h": hid, "bound": 1, "i": i, "n": T_SHARDS, "L": 0, "prefix": [i]}
+            for hid in T_ORDER for i in range(T_SHARDS)]
+
+
+def _replay_t(case, res):
+    from .. import cold
+    zy = cold.Zygote("vf.checks.c04", "_t_setup")
+    try:
+        rec = zy.call("_t_child", case["h"], list(case["choices"]))
+    finally:
+        zy.close()
+    for key, detail in rec["vio"]:
+        res.violate(key, case, detail)
+
+
 # ------------------------------------------------------------------ protocol
 def plan(tier, seed):
     # strata in ascending length, (b) before (a) inside a stratum: a wall cap cuts off the longest strings only
-    shards = _a_shards(5 if tier == "quick" else 7) + _b_shards(tier) + _c_shards(tier)
-    shards.sort(key=lambda sh: (sh["L"], "bca".index(sh["part"]), sh.get("alpha", ""), sh["prefix"]))
+    shards = _a_shards(5 if tier == "quick" else 7) + _b_shards(tier) + _c_shards(tier) + _t_shards(tier)
+    shards.sort(key=lambda sh: (sh["L"], "tbca".index(sh["part"]), sh.get("alpha", ""), sh.get("h", ""), sh["prefix"]))
     return shards
 
 
@@ -548,19 +739,23 @@ def _completed(res, tier):
             break
         b_done = L
     b7 = {al: res.counters.get("b_done_%s_len7" % al, 0) == len(ALPHABETS[al]) ** 7 for al in ("7a", "7b")}
+    extra = {"%s/len%d" % (al, L): res.counters.get("b_done_%s_len%d" % (al, L), 0) == len(ALPHABETS[al]) ** L
+             for al, L in _extra_strata(tier)}
     c_done = -1
     al = _c_alpha(tier)
     for L in range((5 if tier == "quick" else 6) + 1):
         if res.counters.get("c_done_%s_len%d" % (al, L), 0) != len(ALPHABETS[al]) ** L:
             break
         c_done = L
-    return a_done, b_done, b7, c_done
+    return a_done, b_done, b7, c_done, extra
 
 
 def run_shard(sh, tier, seed):
     res = Result()
     if sh["part"] == "a":
         _part_a(sh, tier, res)
+    elif sh["part"] == "t":
+        _part_t(sh, tier, res)
     else:
         _part_b(sh, res)
     return res
@@ -573,11 +768,18 @@ def describe(tier, seed, res):
                 "alone, and -- when s does not end in a backslash and no '[' of s lacks a later ']' -- between "
                 "('[bold]','[/bold]'), ('x[red]y','z[/]'), ('[b]q[/b] ',''), ('[red]r[/red]','[blue]t'); emoji=True as well "
                 "when s has fewer than two ':'%s. (b) every sequence of <=%d events over {x, \\[y], open/close of bold, b, red, "
-                "blue, 'not bold', link=U, plus open link=V, [/]} (16 events)%s. (c) every sequence of <=%d events over text chunks "
+                "blue, 'not bold', link=U, plus open link=V, [/]} (16 events)%s; plus every sequence of exactly %s events over {x, open/close red, blue, green, [/]} and of exactly %s over "
+                "{x, open/close red, blue, [/]} (the same style closed and reopened while another tag stays open); plus every sequence of "
+                "<=%d events over closing-tag spellings {x, [link=U], [link=V], [red], [/], [/link], [/link=U], [/link=W], [/red=1], [/=]} "
+                "(reference rule: tag name = text before '=', stripped; empty name = [/]). (c) every sequence of <=%d events over text chunks "
                 "whose rendered length differs from their source length {:x: (emoji, 1 code point), :nope: (no such emoji), "
                 "U+0008 (stripped control), U+3042 (wide)%s} plus {x, +bold, +red, -bold, -red, [/]} x emoji on/off x entry point "
                 "{markup.render, Text.from_markup, Console.render_str}; offsets of the reference are counted on the rendered text "
-                "(emoji table and strip table used as data). A case is non-trivial when escape() added at least one "
+                "(emoji table and strip table used as data). (t) E3 on cold style caches: harnesses %s, two real threads each rendering markup with the "
+                "never-parsed tag [b red on blue link U] (explicit / implicit close), every execution in a fork of a zygote that never "
+                "rendered markup (vf/cold.py), every executed line of rich/style.py and rich/markup.py a scheduling point, all schedules "
+                "with <=1 preemption; each thread's Text and a later single-threaded render are judged like the sequential case. "
+                "A case is non-trivial when escape() added at least one "
                 "backslash (a) / at least one character is inside an open tag or MarkupError is due (b) / a styled character "
                 "coexists with a chunk that changed length (c); distinct = distinct outcome signatures."
                 % (5 if q else 7,
@@ -585,21 +787,28 @@ def describe(tier, seed, res):
                    5 if q else 6,
                    "" if q else ", plus every sequence of exactly 7 events over the sub-alphabets "
                                 "{x,+bold,[/],+red,-bold,-red,+b,+blue,-blue} and {x,\\[y],[/],+not bold,+bold,+link=U,+link=V,-not bold,-b,-link}",
+                   "6" if q else "6..7", "7" if q else "7..8", 5 if q else 6,
                    5 if q else 6,
-                   "" if q else ", :chad: (emoji, 2 code points), U+0007 (control that is not stripped)"),
+                   "" if q else ", :chad: (emoji, 2 code points), U+0007 (control that is not stripped)",
+                   ", ".join(T_ORDER)),
         "assumptions": [
             "Console.get_style resolves the fixed tag spellings bold, b, red, blue, 'not bold', 'link U', 'link V' to their documented styles (decided by C06/C20)",
             "the embedded clause is only judged for contexts that do not end in a backslash (such a context is not 'complete markup')",
             "emoji substitution is a separate feature: emoji=True is only judged where fewer than two ':' make it a no-op",
             "exact (tri-state) style equality per character: 'not bold' must read back as bold=False, not as unset",
+            "part (t): rendering internals outside rich/style.py and rich/markup.py (Text, Color.parse, the C-level lru_cache wrappers) run without scheduling points; preemption bound 1",
             "part (c): the rendered form of a text chunk is its emoji-table entry (emoji on, ':name:' in rich._emoji_codes.EMOJI) minus the code points of rich.control.STRIP_CONTROL_CODES; both tables are trusted as data",
         ],
         "coverage": {"strings": res.counters.get("a_strings", 0), "tag_sequences": res.counters.get("b_sequences", 0),
                      "completed_bounds": {"escape_string_length": _completed(res, tier)[0],
                                           "tag_events_full_alphabet": _completed(res, tier)[1],
                                           "tag_events_len7_subalphabets": (_completed(res, tier)[2] if not q else "n/a"),
-                                          "resized_text_events": _completed(res, tier)[3]},
-                     "resized_text_sequences": res.counters.get("c_sequences", 0)},
+                                          "resized_text_events": _completed(res, tier)[3],
+                                          "tag_events_extra_strata_complete": all(_completed(res, tier)[4].values()),
+                                          "tag_events_extra_strata_incomplete": sorted(k for k, v in _completed(res, tier)[4].items() if not v)},
+                     "resized_text_sequences": res.counters.get("c_sequences", 0),
+                     "schedules": res.counters.get("schedules", 0),
+                     "thread_harnesses_explored": sorted(k.split(":", 1)[1] for k in res.counters if k.startswith("threads_harness:"))},
     }
 
 
@@ -607,6 +816,8 @@ def replay(case):
     res = Result()
     if case.get("part") == "a":
         check_escape(case["s"], res)
+    elif case.get("part") == "t":
+        _replay_t(case, res)
     elif case.get("part") == "c":
         check_events(tuple(case["events"]), res, case["emoji"], case["entry"], "c")
     else:
